@@ -98,6 +98,10 @@ CURATED = [
      "Mark: after", "Wait: 1s", ""],
     ["Base: s", "Block: B", "    Alarm: In > 2 L/h", "        Mark: X", "        Wait: 0.2s", "    Watch: In > 2 L/h", "        Wait: 0.2s",
      "        End block", "    Wait: 5s", "Mark: after", "Wait: 1s", ""],
+    ["Base: s", "Block: B", "    Watch: In > 2 L/h", "        End block", "    Alarm: In > 2 L/h", "        Mark: X", "Mark: after",
+     "Wait: 3s", ""],
+    ["Base: s", "Block: B", "    Alarm: In > 2 L/h", "        Mark: X", "    Watch: In > 2 L/h", "        End block", "Mark: after",
+     "Wait: 3s", ""],
     ["Base: s", "Pause: 0.3s", "Mark: p", "Hold: 0.2s", "Mark: h", "Block: B", "    0.2 Mark: inb", "    End block", ""],
 ]
 
